@@ -15,6 +15,8 @@ type testMapper struct {
 	fields map[string]map[string]influxql.DataType // measurement -> field -> type ("" = any measurement)
 	tags   map[string][]string
 	fail   bool
+	// tagSets caches the tag-key sets handed out by cachingMapper
+	tagSets map[string]map[string]struct{}
 }
 
 func (m *testMapper) FieldDimensions(mm *influxql.Measurement) (map[string]influxql.DataType, map[string]struct{}, error) {
@@ -397,6 +399,45 @@ var Ops = []Op{
 		out += influxql.CloneExpr(cond).String()
 		return out
 	}},
+}
+
+func init() {
+	// two-step sequences: an operation applied to the result of another one
+	Ops = append(Ops,
+		Op{"Reduce;GroupByOffset;ColumnNames", false, func(st influxql.Statement, rg *mon.Rng) interface{} {
+			_, _, _, sel := stmtParts(st)
+			if sel == nil {
+				return nil
+			}
+			red := sel.Reduce(&influxql.NowValuer{Now: fixedNow})
+			d, err := red.GroupByOffset()
+			d2, tags := red.Dimensions.Normalize()
+			return fmt.Sprint(d, err, d2, tags, red.ColumnNames(), red.String())
+		}},
+		Op{"RewriteFields;ColumnNames;Reduce", false, func(st influxql.Statement, rg *mon.Rng) interface{} {
+			_, _, _, sel := stmtParts(st)
+			if sel == nil {
+				return nil
+			}
+			o, err := sel.RewriteFields(randomMapper(rg, refNames(sel)))
+			if err != nil {
+				return err.Error()
+			}
+			p, _ := o.RequiredPrivileges()
+			return fmt.Sprint(o.ColumnNames(), o.Reduce(pickValuer(rg)).String(), p)
+		}},
+		Op{"Clone;RewriteRegexConditions;ConditionExpr", false, func(st influxql.Statement, rg *mon.Rng) interface{} {
+			_, _, _, sel := stmtParts(st)
+			if sel == nil {
+				return nil
+			}
+			cl := sel.Clone()
+			cl.RewriteRegexConditions()
+			cl.RewriteDistinct()
+			e, tr, err := influxql.ConditionExpr(cl.Condition, &influxql.NowValuer{Now: fixedNow})
+			return fmt.Sprint(e, tr, err, cl.String())
+		}},
+	)
 }
 
 func pickValuer(rg *mon.Rng) influxql.Valuer {
